@@ -63,7 +63,7 @@ Proof. exact push_clone_panics. Qed.
 From AV.Model Require Import Interp.
 From AV.Spec Require Import WorldSpec.
 From AV.Proofs Require Import WorldProofs.
-(** WHOLE HISTORIES: a lazy clone of an element of another vector (any nesting depth) offered to push or insert - erased or typed path - is a step of the history fragment of AV.Props.C01 ([WorldSpec.sp_offer_lazy]): exactly one Clone call, at the moment of consumption, of exactly the source element's current value; the destination receives the NEW value at the right place, the source vector is untouched; an offer that is refused (source index, insertion index, full fixed capacity) clones nothing.  [C09_lazy_offer_in_histories] proves that the byte-level machine does this at any point of any history (on top of [C09_push] / [C09_insert] through [C09_raw_action_clone]).  Lazy clones of removal handles and drained elements, and lazy clones consumed by splice or downcast, remain one-step theorems + correspondence. *)
+(** WHOLE HISTORIES: a lazy clone of an element of another vector (any nesting depth) offered to push or insert - erased or typed path - is a step of the history fragment of AV.Props.C01 ([WorldSpec.sp_offer_lazy]): exactly one Clone call, at the moment of consumption, of exactly the source element's current value; the destination receives the NEW value at the right place, the source vector is untouched; an offer that is refused (source index, insertion index, full fixed capacity) clones nothing.  [C09_lazy_offer_in_histories] proves that the byte-level machine does this at any point of any history (on top of [C09_push] / [C09_insert] through [C09_raw_action_clone]).  The same holds for a lazy clone of a value the CALLER owns (a user-defined cloneable value whose Type is the concrete element type - the only lazily cloned source with a known static type): [WorldSpec.sp_offer_userlazy], [C09_user_lazy_offer_in_histories]; and for lazy clones of a removal handle that are downcast (a new value each time, destroyed by the caller) before the handle is consumed: sink [KLazyDown] of [WorldSpec.sp_sink] (C01_sinks_in_histories).  Lazy clones of handles pushed into other vectors, of drained elements, and lazy clones consumed by splice remain one-step theorems + correspondence. *)
 Theorem C09_raw_action_clone :
   forall (c : cfg) (vv : vec) (a : avec) (u : uw) (idx : option N) (bs : mem) (t0 : N) (k : bool),
          cfg_wf c ->
@@ -99,9 +99,21 @@ Theorem C09_lazy_offer_in_histories :
              offer_into c vid o0 (raw_action c idx);; ret (0, [])) w) r.
 Proof. exact exec_offer_lazy. Qed.
 
+Theorem C09_user_lazy_offer_in_histories :
+  forall (c : cfg) (w : world) (st : astate) (vid : nat) (idx : option N) (d : N) (r : sres),
+         cfg_wf c ->
+         WRep c w st ->
+         ufuse (wuw w) = None ->
+         adm_vec c w vid ->
+         sp_offer_userlazy c st (unext (wuw w)) vid idx = Some r ->
+         res_matches c w
+           ((do o <- make_offer c (SLazyUser d); offer_into c vid o (raw_action c idx);; ret (0, [])) w) r.
+Proof. exact exec_offer_userlazy. Qed.
+
 (* ---- end histories ---- *)
 Print Assumptions C09_push.
 Print Assumptions C09_insert.
 Print Assumptions C09_push_panics.
 Print Assumptions C09_raw_action_clone.
 Print Assumptions C09_lazy_offer_in_histories.
+Print Assumptions C09_user_lazy_offer_in_histories.
